@@ -168,6 +168,14 @@ func init() {
 					if op.Kind == "missing" {
 						name = "nosuchtemplate"
 					}
+					// a name that resolves to a directory: opening succeeds, reading fails
+					os.MkdirAll(filepath.Join(sub, "adir"), 0755)
+					if op.Kind == "dir" {
+						name = "adir"
+					}
+					if op.Kind == "incdir" {
+						ioutil.WriteFile(filepath.Join(sub, "main"), []byte("a{% include 'adir' %}b"), 0644)
+					}
 				}
 				env := stick.New(loader)
 				var xerr error
